@@ -89,6 +89,24 @@ theorem C12_fn_new (s : VelocityControlSpec) :
         toVC, toSpec, toIType, VC.ofSpec, Spec.triple, VC.newWithIntervals, Rs.vecResize, Except.map] <;>
       first | exact ⟨rfl, rfl⟩ | exact ⟨rfl, rfl, rfl⟩
 
+/-- `with_state`: start second and buckets are replaced, limit and bucket interval kept -/
+theorem C12_fn_with_state (g : VelocityControl) (st : Nat × List Nat) :
+    toVC (g.with_state st) = { toVC g with start := st.1, buckets := st.2 } := rfl
+
+/-- `load_from_state(spec, state)` never panics and is the model's `VC.loadFromState`: limit and bucket interval
+    of the spec, start second and *bucket vector* of the state — whatever its length (the control that
+    `Props/C12`'s counter-example shows to forget too early when the state stems from another geometry) -/
+theorem C12_fn_load_from_state (s : VelocityControlSpec) (st : Nat × List Nat) :
+    (VelocityControl.load_from_state s st).map toVC = .ok (VC.loadFromState (toSpec s) st) := by
+  have h := C12_fn_new s
+  unfold VelocityControl.load_from_state
+  cases hn : VelocityControl.new s with
+  | error e => rw [hn] at h; cases h
+  | ok g =>
+    rw [hn] at h
+    simp only [Except.map, Except.ok.injEq] at h
+    simp [Except.map, bind, Except.bind, pure, Except.pure, VC.loadFromState, C12_fn_with_state, h]
+
 /-- the shift loop of `insert` (`for _ in 0..nshift { self.buckets.insert(0, 0) }`) prepends `n` zeros -/
 theorem C12_fn_shift_loop (n : Nat) : ∀ s : VelocityControl,
     Rs.iter (fun s : VelocityControl => { s with buckets := 0 :: s.buckets }) n s
